@@ -106,11 +106,16 @@ def run_fct(cfg):
         opts = m.FunctionReciprocalTransformer.available_fcts()
         e.prove(name in opts, "name-is-predefined")
         n = cfg["n"]
-        y = e.reals("y", n)
         lo = DOMAIN.get(name)
-        for i in range(n):
-            if lo is not None:
-                e.assume(y[i] > lo)
+        if cfg.get("int_targets"):
+            # count data: an integer-typed target vector (values symbolic ints in the domain)
+            ys = [e.int(f"y_{i}", 1, 50) for i in range(n)]
+            y = sx.int_array(ys)
+        else:
+            y = e.reals("y", n)
+            for i in range(n):
+                if lo is not None:
+                    e.assume(y[i] > lo)
         if cfg["nan"]:
             y = sx.sarr(list(y[:-1]) + [float("nan")])
         X = e.reals("X", n, 1)
@@ -150,6 +155,15 @@ def replay_fct(cfg, inputs, label):
     if lo is not None:
         y = y[y > lo]
     y = numpy.concatenate([y, [numpy.nan]])
+    if cfg.get("int_targets"):
+        y = numpy.array([1, 2, 3, 4, 5, 7], dtype=numpy.int64)
+        X = numpy.arange(len(y) * 1.0).reshape(-1, 1)
+        T = m.FunctionReciprocalTransformer(name).fit(X, y)
+        _, y1 = T.transform(X, y)
+        _, y2 = T.get_fct_inv().transform(X, y1)
+        if not numpy.allclose(numpy.asarray(y2, dtype=float), y, rtol=1e-9):
+            return True, dict(fct=name, integer_targets=y.tolist(), transformed=numpy.asarray(y1).tolist(), roundtrip=numpy.asarray(y2).tolist())
+        return False, "round trip exact on integer targets"
     X = numpy.arange(len(y) * 1.0).reshape(-1, 1)
     T = m.FunctionReciprocalTransformer(name).fit(X, y)
     X1, y1 = T.transform(X, y)
@@ -274,7 +288,8 @@ def run_perm(cfg):
         StubClf.registry = []
         with harness.patched(m, numpy=npf):
             # -- the classifier, fitted once or twice on the same instance
-            clf = tp.TransformedTargetClassifier2(classifier=StubClf(), transformer="permute")
+            tobj = m.PermutationReciprocalTransformer(random_state=None) if cfg.get("tobj") else None
+            clf = tp.TransformedTargetClassifier2(classifier=StubClf(), transformer=tobj if tobj is not None else "permute")
             history = [labels] + ([labels2] if labels2 else [])
             for step, labs in enumerate(history):
                 tag = "" if step == 0 else "/after-refit"
@@ -283,6 +298,8 @@ def run_perm(cfg):
                 r = clf.fit(Xk, yk)
                 e.prove(r is clf, "clf/fit-returns-self")
                 inner = clf.classifier_
+                if tobj is not None:
+                    e.prove(clf.transformer_ is not tobj and not hasattr(tobj, "permutation_"), "clf/the-transformer-parameter-is-cloned-never-fitted")
                 perm = dict(clf.transformer_.permutation_)
                 # trained on the permuted target, same features
                 e.prove(inner.seen_[0] is Xk and inner.seen_[1].tolist() == [perm[v] for v in yk.tolist()], "clf/trained-on-permuted-target" + tag)
@@ -339,6 +356,9 @@ def replay_perm(cfg, inputs, label):
 
 def _replay_perm(cfg, inputs, label):
     from sklearn.linear_model import LogisticRegression
+
+    if "transformer-parameter-is-cloned" in label:
+        return _replay_cloned(label)
 
     m = loader.load("mlmodel.sklearn_transform_inv_fct")
     tp = loader.load("mlmodel.target_predictors")
@@ -407,9 +427,12 @@ def run_reg(cfg):
         w = e.reals("w", n) if cfg["weighted"] else None
         StubReg.registry = []
         with harness.patched(m, numpy=_NPF()):
-            reg = tp.TransformedTargetRegressor2(regressor=StubReg(), transformer=name)
+            tobj = m.FunctionReciprocalTransformer(name) if cfg["weighted"] else None
+            reg = tp.TransformedTargetRegressor2(regressor=StubReg(), transformer=tobj if tobj is not None else name)
             r = reg.fit(X, y, sample_weight=w)
             e.prove(r is reg, "reg/fit-returns-self")
+            if tobj is not None:
+                e.prove(reg.transformer_ is not tobj and not hasattr(tobj, "fct_"), "reg/the-transformer-parameter-is-cloned-never-fitted")
             inner = reg.regressor_
             e.prove(inner is not reg.regressor and inner.seen_[0] is X and inner.seen_[2] is w, "reg/inner-gets-same-X-and-weights")
             T = m.FunctionReciprocalTransformer(name).fit()
@@ -438,8 +461,31 @@ def run_reg(cfg):
     return dict(stats=eng.stats.as_dict(), violations=viol)
 
 
+def _replay_cloned(label):
+    """real estimators: the transformer object given as a parameter must be cloned, never fitted"""
+    from sklearn.linear_model import LinearRegression, LogisticRegression
+
+    tp = loader.load("mlmodel.target_predictors")
+    m = loader.load("mlmodel.sklearn_transform_inv_fct")
+    X = numpy.arange(12.0).reshape(-1, 1)
+    if label.startswith("reg/"):
+        t = m.FunctionReciprocalTransformer("log")
+        est = tp.TransformedTargetRegressor2(regressor=LinearRegression(), transformer=t).fit(X, numpy.exp(X.ravel() / 6))
+        fitted = hasattr(t, "fct_")
+    else:
+        t = m.PermutationReciprocalTransformer(random_state=0)
+        est = tp.TransformedTargetClassifier2(classifier=LogisticRegression(), transformer=t).fit(X, numpy.array([0, 1, 2] * 4))
+        fitted = hasattr(t, "permutation_")
+    if est.transformer_ is t or fitted:
+        return True, dict(transformer_is_the_parameter_object=est.transformer_ is t, parameter_object_fitted=fitted)
+    return False, "the parameter object is cloned"
+
+
 def replay_reg(cfg, inputs, label):
     from sklearn.linear_model import LinearRegression
+
+    if "transformer-parameter-is-cloned" in label:
+        return _replay_cloned(label)
 
     tp = loader.load("mlmodel.target_predictors")
     m = loader.load("mlmodel.sklearn_transform_inv_fct")
@@ -472,6 +518,7 @@ def configs(tier):
     for name in names:
         for nan in (False, True):
             out.append(dict(kind="fct", name=name, n=2 if tier == "quick" else 3, nan=nan))
+        out.append(dict(kind="fct", name=name, n=2, nan=False, int_targets=True))
         for weighted in (False, True):
             out.append(dict(kind="reg", name=name, weighted=weighted))
     sets = ["012", "539", "5-20-100", "neg", "str", "01", "float-nan"] + ([] if tier == "quick" else ["4"])
@@ -480,6 +527,8 @@ def configs(tier):
             out.append(dict(kind="perm", part="transformer", labels=ls, labels2=None, seed=seed))
         if ls != "float-nan":
             out.append(dict(kind="perm", part="classifier", labels=ls, labels2=None, seed=None))
+            if ls == "539":
+                out.append(dict(kind="perm", part="classifier", labels=ls, labels2=None, seed=None, tobj=True))
     # history: the same classifier instance refitted on another label set (other size / other labels)
     for a, b in (("012", "539"), ("539", "01"), ("01", "neg"), ("neg", "5-20-100")) + ((("4", "012"), ("012", "4")) if tier != "quick" else ()):
         out.append(dict(kind="perm", part="classifier", labels=a, labels2=b, seed=None))
